@@ -304,6 +304,12 @@ func Explore(m *Machine, starts []*State, multi bool, stats *ExploreStats, worke
 		m.applyBelow()
 		m.in.cls.rebuild()
 		ex.dis = map[string]Disagreement{}
+		if m.in.precisePrev && len(starts) > 0 {
+			// superset view: dead fields are normalised (live.go)
+			if hs := m.enterWork(starts[0]); len(hs) > 0 {
+				m.computeLiveness(hs[0])
+			}
+		}
 		ex.round(starts)
 		// another round is needed only if a pop was explored before the last
 		// stack candidate was discovered, or the byte classes were refined
@@ -676,6 +682,19 @@ func dedupeOutcomes(m *Machine, outs []Outcome) []Outcome {
 			sb.WriteByte(it.Rep)
 			for b := 0; b < 256; b++ {
 				if it.Set[b] {
+					sb.WriteByte('1')
+				} else {
+					sb.WriteByte('0')
+				}
+			}
+		}
+		if len(o.Decisions) > 0 {
+			sb.WriteString("|dec" + strings.Join(o.Decisions, ","))
+		}
+		if o.Peek != nil {
+			sb.WriteString("|peek")
+			for b := 0; b < 256; b++ {
+				if o.Peek[b] {
 					sb.WriteByte('1')
 				} else {
 					sb.WriteByte('0')
